@@ -143,6 +143,8 @@ class RefEmitter:
                     conds.append(f"c == 0x{ord(p[1]):x}")
                 elif p[0] == "range":
                     conds.append(f"(c >= 0x{ord(p[1]):x} && c <= 0x{ord(p[2]):x})")
+                elif p[1] == "char":
+                    conds.append("true")
                 else:
                     conds.append(f"silent_{p[1]}(cx, inp, pos)")
             checks = "".join(
